@@ -432,6 +432,7 @@ pub fn dimension_misuse(solver: Solver) -> Vec<(String, String)> {
     // returns (what, observed) pairs; the check compares with the contract
     type F1 = fn(f64, &[f64], &mut ()) -> Result<BVector<f64, Const<1>>, UserError>;
     type FD = fn(f64, &[f64], &mut ()) -> Result<BVector<f64, Dyn>, UserError>;
+    type F3 = fn(f64, &[f64], &mut ()) -> Result<BVector<f64, Const<3>>, UserError>;
     fn show<T>(r: Guarded<Result<T, IVPError>>) -> String {
         match r {
             Guarded::Ok(Ok(_)) => "Ok".into(),
@@ -445,6 +446,10 @@ pub fn dimension_misuse(solver: Solver) -> Vec<(String, String)> {
             vec![
                 ("new() on Dyn".to_string(), show(probe::guard(|| $S::<f64, Dyn, (), FD>::new()))),
                 ("new_dyn(2) on Const<1>".to_string(), show(probe::guard(|| $S::<f64, Const<1>, (), F1>::new_dyn(2)))),
+                // a run-time size is misuse of a static dimension even when it equals that dimension
+                ("new_dyn(1) on Const<1>".to_string(), show(probe::guard(|| $S::<f64, Const<1>, (), F1>::new_dyn(1)))),
+                ("new_dyn(3) on Const<3>".to_string(), show(probe::guard(|| $S::<f64, Const<3>, (), F3>::new_dyn(3)))),
+                ("new_dyn(0) on Dyn".to_string(), show(probe::guard(|| $S::<f64, Dyn, (), FD>::new_dyn(0)))),
                 ("new() on Const<1>".to_string(), show(probe::guard(|| $S::<f64, Const<1>, (), F1>::new()))),
                 ("new_dyn(3) on Dyn".to_string(), show(probe::guard(|| $S::<f64, Dyn, (), FD>::new_dyn(3)))),
             ]
